@@ -228,4 +228,24 @@ def G2swap (L : ℕ) (T0 T1 : Tensor4 K) (β β' : ℕ × ℕ) (i o : ℕ) : K :
 def init1 (ρ0 : ℕ → K) : ℕ → ℕ → K := fun b s => if b = 0 then ρ0 s else 0
 def init2 (ρ0 : ℕ → K) : ℕ × ℕ → ℕ → K := fun β s => if β = (0, 0) then ρ0 s else 0
 
+/-- `_apply_caps`, one environment: the state recorded at step `n` -/
+def codeRecord1 (L : ℕ) (D : ℕ → ℕ) (T : ℕ → Tensor4 K) (A B : ℕ → ℕ → ℕ → K) (cap : ℕ → ℕ → K)
+    (ρ0 : ℕ → K) (n s : ℕ) : K :=
+  ∑ b ∈ range (D n), cap n b * codeFwd L (envs1 D T) A B (init1 ρ0) n b s
+
+/-- `_apply_caps`, two environments: the bond legs are closed one after the other -/
+def codeRecord2 (L : ℕ) (D0 D1 : ℕ → ℕ) (T0 T1 : ℕ → Tensor4 K) (A B : ℕ → ℕ → ℕ → K)
+    (cap0 cap1 : ℕ → ℕ → K) (ρ0 : ℕ → K) (n s : ℕ) : K :=
+  ∑ b0 ∈ range (D0 n), cap0 n b0 * ∑ b1 ∈ range (D1 n), cap1 n b1 *
+    codeFwd L (envs2 D0 D1 T0 T1) A B (init2 ρ0) n (b0, b1) s
+
+/-- the target derivative as a joint tensor: all bond legs have dimension one -/
+def tgt1 (t : ℕ → K) : ℕ → ℕ → K := fun b s => if b = 0 then t s else 0
+def tgt2 (t : ℕ → K) : ℕ × ℕ → ℕ → K := fun β s => if β = (0, 0) then t s else 0
+
+/-- the objective as the code computes it: target derivative · final forward tensor -/
+def codeZ (L : ℕ) (SN : Finset ι) (envs : ℕ → List (EnvMpo ι K)) (A B : ℕ → ℕ → ℕ → K)
+    (X0 tgt : ι → ℕ → K) (N : ℕ) : K :=
+  pair L SN tgt (codeFwd L envs A B X0 N)
+
 end OQuPyVerif.Grad
